@@ -2,7 +2,7 @@
 from . import arr as A
 from .arr import Arr
 from .core import Finding, norm_text
-from .shape import Size, sz_eq
+from .shape import Size, sz_eq, sz_prod
 
 
 def ev_where(repo, e, mods=None):
@@ -115,7 +115,7 @@ def layout_obligation(run, prop, rule, repo, sc, res, entry, scen):
         for g in (c.legs[0], c.legs[3]):
             for l in g:
                 l = l.resolve()
-                if l.kind == 'R' and l.conj:
+                if l.kind == 'R' and l.conj and l.key[0] != 'B':       # (a fresh bond created by a decomposition may carry the conjugate on both sides: a gauge)
                     bad.append(f'core {k} carries a conjugated bond index {l}')
                 if l.kind == 'M':
                     bad.append(f'core {k} carries mode index {l} on a rank axis')
@@ -186,3 +186,96 @@ def relative_cut_obligations(run, prop, rule, repo, sc, scen, mods=None):
         if not ok:
             run.add(Finding(prop, rule, where, cons, f'{scen}: singular values are cut by an absolute test (or not relative to the largest one) instead of s / s[0] > threshold', f, ln))
     return n
+
+
+# ---------------------------------------------------------------------------------------------- semantic rules on matrix expressions (ttsa/mx.py)
+def core_iso(core, side):
+    """is the core an isometry on the given side ('LO': (rank*row*col | rank) unfolding has orthonormal columns; 'RO': (rank | row*col*rank) has orthonormal
+    rows)?  True (provable: typestate tag or rewriting X^H X -> I) / False (the expression is fully known and is not one) / None (unknown)"""
+    from . import mx
+    if not isinstance(core, Arr):
+        return None
+    if core.tags.get('orth') == side:
+        return True
+    if core.ndim < 2:
+        return None
+    rows = sz_prod(core.shape[:-1]) if side == 'LO' else core.shape[0]
+    m = A.unfolding_mx(core, rows)
+    if (mx.left_isometry(m) if side == 'LO' else mx.right_isometry(m)):
+        return True
+    m = mx.canon(m)
+    if mx.fully_known(m) or (len(m) == 1 and m[0][0] == 'src'):
+        return False
+    return None
+
+
+def pair_mx(left, right):
+    """matrix expression of the two-core block  (left: rank*row*col | bond) (bond | row*col*rank)"""
+    from . import mx
+    if not (isinstance(left, Arr) and isinstance(right, Arr)):
+        return None
+    return mx.mul(A.unfolding_mx(left, sz_prod(left.shape[:-1])), A.unfolding_mx(right, right.shape[0]))
+
+
+def sweep_steps(sc, inst, old_cores):
+    """[(slots touched, cores before, cores after)] : the stores into the core list of `inst`, grouped into the steps that lie between two matrix decompositions"""
+    cur = list(old_cores)
+    steps, pending = [], []
+
+    def close():
+        nonlocal cur
+        if pending:
+            new = list(cur)
+            for k, v in pending:
+                new[k] = v
+            steps.append((sorted({k for k, _ in pending}), cur, new))
+            cur = new
+            pending.clear()
+    for e in sc.ctx.events:
+        if e['kind'] in ('svd', 'qr', 'rq', 'eig', 'eigh', 'solve'):
+            close()
+        elif e['kind'] == 'core-store' and e['tt'] is inst:
+            pending.append((e['slot'], e['value']))
+    close()
+    return steps
+
+
+def value_preservation(sc, inst, old_cores, truncating=False, skip_last=False):
+    """every step of a sweep leaves the represented tensor unchanged: the product of the unfoldings of the cores it touches is the same expression before and after
+    (with truncation: the same after replacing each truncated reconstruction  U[:, sel] diag(s[sel]) V[sel, :]  by the matrix that was decomposed).
+    Returns (violations, unknown, number of steps checked)."""
+    from . import mx
+    bad, unknown, n = [], [], 0
+    steps = sweep_steps(sc, inst, old_cores)
+    for slots, before, after in (steps[:-1] if skip_last else steps):
+        if len(slots) == 1:
+            k = slots[0]
+            b, a_ = before[k], after[k]
+            if not (isinstance(b, Arr) and isinstance(a_, Arr)):
+                continue
+            mb, ma = A.unfolding_mx(b, b.shape[0]), A.unfolding_mx(a_, a_.shape[0])
+            what = f'core {k}'
+        elif len(slots) == 2 and slots[1] == slots[0] + 1:
+            k = slots[0]
+            mb, ma = pair_mx(before[k], before[k + 1]), pair_mx(after[k], after[k + 1])
+            what = f'cores {k}, {k + 1}'
+        else:
+            unknown.append(f'a step stores into cores {slots} at once')
+            continue
+        n += 1
+        if mb is None or ma is None:
+            unknown.append(f'{what}: no matrix expression')
+            continue
+        ma_c = mx.untruncate(ma) if truncating else mx.canon(ma)
+        if ma_c is None:
+            unknown.append(f'{what}: truncated factors of an unregistered decomposition')
+            continue
+        if ma_c == mx.canon(mb):
+            continue
+        # different normal forms: a verdict only if everything the step computed is a product of known factors of the old cores
+        new_atoms = {f[:2] for f in ma_c if f[0] == 'src'} - {f[:2] for f in mx.canon(mb) if f[0] == 'src'}
+        if new_atoms:
+            unknown.append(f'{what}: the new cores contain a matrix of unknown provenance ({mx.show(ma_c)})')
+        else:
+            bad.append(f'{what}: the product of the new cores is  {mx.show(ma_c)}  but the cores they replace give  {mx.show(mx.canon(mb))}')
+    return bad, unknown, n
